@@ -110,6 +110,16 @@ func Offline(m *mon.Monitor, porcupineTimeout time.Duration) Stats {
 		}
 	}
 
+	// ---- C09 (2): the configuration a successful membership future reported is still committed at the end
+	for _, id := range m.OpOrder {
+		op := m.Ops[id]
+		if (op.Type == "ADD" || op.Type == "REM") && op.Outcome == "ok" && op.Cfg != nil && op.Cfg.Index > 0 {
+			if ke, ok := m.K[op.Cfg.Index]; ok && (ke.Type != 2 || ke.Cfg == nil || !ke.Cfg.Equal(op.Cfg)) {
+				add([]string{"C09"}, "membership-future-not-durable", op.Target, "membership future %s succeeded with configuration %s, but the committed entry at index %d is different", op.ID, op.Cfg.Canon(), op.Cfg.Index)
+			}
+		}
+	}
+
 	// ---- C05 / C17 staleness (sequence numbers only, no clock)
 	type ack struct {
 		ret uint64
